@@ -364,7 +364,9 @@ ReqOneN(s, q) ==
     IF q.r = "NOORDER" THEN s
     ELSE IF q.kind = "PLACE"
     THEN LET s00 == EnsureOrder(s, q)
-             s0 == [s00 EXCEPT !.ord[q.o].client = q.client]     \* order.update_client(transaction client) comes first
+             \* order.update_client(transaction client) comes first - unless the order is already in the blotter: a placed
+             \* order keeps its client, the second placement is rejected (D29)
+             s0 == IF s00.ord[q.o].inbl THEN s00 ELSE [s00 EXCEPT !.ord[q.o].client = q.client]
              s1 == IF q.ctx THEN EnterTrade(s0, q.t) ELSE s0
              s2 == IF s0.ord[q.o].inbl THEN s1   \* already placed: rejected, nothing changes
                    ELSE IF q.r = "REFUSE" THEN ClearUpd(SetStatus(s1, q.o, "VIOLATION"), q.o)
